@@ -62,6 +62,14 @@ theorem emit_ref (o o' : Oracle) (s s' : St) (a b : Nat) (e : Err)
     (h : emit o s a b = (o', s', e)) (he : e ≠ .oom) : (s'.v, e) = specStep (.emit a b) s.v := by
   unfold emit at h; ref_all h he
 
+theorem inst_ref (o o' : Oracle) (s s' : St) (a b : Nat) (e : Err)
+    (h : inst o s a b = (o', s', e)) (he : e ≠ .oom) : (s'.v, e) = specStep (.inst a b) s.v := by
+  unfold inst at h; ref_all h he
+
+theorem jmpf_ref (o o' : Oracle) (s s' : St) (a : Nat) (e : Err)
+    (h : jmpf o s a = (o', s', e)) (he : e ≠ .oom) : (s'.v, e) = specStep (.jmpf a) s.v := by
+  unfold jmpf at h; ref_all h he
+
 theorem vappend_ref (o o' : Oracle) (s s' : St) (x : Nat) (e : Err)
     (h : vappend o s x = (o', s', e)) (he : e ≠ .oom) : (s'.v, e) = specStep (.vappend x) s.v := by
   unfold vappend at h; ref_all h he
